@@ -222,8 +222,9 @@ def abs_diff(r: absdoc.AbsDoc, o: absdoc.AbsDoc, cat: str):
       ax = [a for a in x.anims if want is None or a[0] == want]
       ay = [a for a in y.anims if want is None or a[0] == want]
       if len(ax) != len(ay):
-        tag = form_tag(ax[0][0], ax[0][3]) if len(ax) == 1 and not ay else ""
-        return (f"value-syntax:{ax[0][0]}{tag}" if tag else "style-association:set-count", f"set on {x.kind}")
+        lost = [a for a in ax if not any(a[0] == b[0] and val_eq(a[0], a[3], b[3]) for b in ay)]
+        tag = form_tag(lost[0][0], lost[0][3]) if lost else ""
+        return (f"value-syntax:{lost[0][0]}{tag}" if tag else "style-association:set-count", f"set on {x.kind}")
       for (p1, b1, e1, v1), (p2, b2, e2, v2) in zip(ax, ay):
         if p1 != p2 or not val_eq(p1, v1, v2):
           tag = form_tag(p1, v1)
@@ -443,6 +444,22 @@ def check_doc(ctx, xml: str, classes=(), source="gen", do_shrink=True, witness=N
   return status
 
 
+def raise_key(exc, kind, typ) -> str:
+  """Mechanism key of an exception raised while reading a corrupted document: the exception class and the innermost ttconv
+  function (qualified).  An exception out of the element processing of imsc/elements.py is not about parsing the corrupted
+  value: it gets the same key as for an uncorrupted document."""
+  qual, fname = "?", ""
+  tb = exc.__traceback__
+  while tb is not None:
+    code = tb.tb_frame.f_code
+    if "/ttconv/" in code.co_filename:
+      qual, fname = getattr(code, "co_qualname", code.co_name), code.co_filename
+    tb = tb.tb_next
+  if fname.endswith("imsc/elements.py") and "ParsingContext.process" in qual:
+    return "raises:" + exc_site(exc)
+  return f"{kind}-raises:{typ}:{type(exc).__name__}:{qual}"
+
+
 def new_records(rec_c, rec_0):
   """records (>= WARNING, ttconv.imsc.*) emitted for X' beyond those emitted for X0 (multiset difference)"""
   c = collections.Counter((n, m) for n, _l, m in rec_c if n.startswith("ttconv.imsc"))
@@ -467,7 +484,7 @@ def check_corruption(ctx, c: dict):
   if exc1 is not None:
     ctx.count(f"corrupt:{kind}:judged")
     ctx.nontriv(c["xml"])
-    ctx.violation(f"{kind}-raises:{tag}:{exc_site(exc1)}", f"{desc}: reader raised {type(exc1).__name__}: {exc1}", payload)
+    ctx.violation(raise_key(exc1, kind, c["type"]), f"{desc} ({c['shape']}): reader raised {type(exc1).__name__}: {exc1}", payload)
     return
   if obs1 is None:
     ctx.count(f"corrupt:{kind}:judged")
